@@ -66,16 +66,33 @@ def run_history(run, case):
     recs, tids, kinds = [], [], {}
     escaped = []
 
+    reqs = {}
+
     def issue(k):
+        from pymodbus.register_read_message import ReadHoldingRegistersRequest
         before = len(tr.value())
+        if case.get('reuse') and k >= 1 and k % 2 == 1 and (k - 1) in reqs and len(units) == 1:
+            req = reqs[k - 1]          # the application submits the same request object again while its first submission is pending
+        else:
+            req = ReadHoldingRegistersRequest(2000 + k, 1, unit=units[k % len(units)])
+        reqs[k] = req
         try:
-            d = p.read_holding_registers(2000 + k, 1, unit=units[k % len(units)])
+            d = p.execute(req)
         except Exception as e:  # noqa
             escaped.append(e)
             from twisted.internet import defer
             d = defer.Deferred()
         rec = Rec(k)
-        d.addCallbacks(rec.cb, rec.eb)
+        if case.get('retry_on_loss') and k == 0:
+            # a retry handler: when the request fails it submits a new one from inside the errback
+            def eb(f, rec=rec):
+                rec.eb(f)
+                if len(recs) < n + 8:
+                    issue(len(recs))
+                return None
+            d.addCallbacks(rec.cb, eb)
+        else:
+            d.addCallbacks(rec.cb, rec.eb)
         recs.append(rec)
         frames, pos, err = ADU.parse_stream(framing, REQ, tr.value()[before:])
         tids.append(frames[0].tid if frames and err is None else None)
@@ -263,7 +280,7 @@ def run(run):
                 events.append(('reply', n))          # a reply arriving after the loss for the late request: must not resurrect it
         units = [1] if i % 4 else [1, 2, 3]
         add(run, {'variant': variant, 'n': n, 'events': events, 'group': r.choice([1, 1, 2, 3, 50]), 'units': units, 'tid_start': r.choice([None, None, 65530, 65534]),
-                  'ctor': ('default', 'instance', 'class')[i % 3]},
+                  'ctor': ('default', 'instance', 'class')[i % 3], 'reuse': i % 5 == 2, 'retry_on_loss': i % 4 == 1},
             ('rand', variant, kind, len(units) > 1))
     # connection loss at every point of a fixed history
     for n in (1, 2, 4):
@@ -272,6 +289,14 @@ def run(run):
             ev.insert(cut, ('lose',))
             ev.append(('request',))
             add(run, {'variant': 'tcp', 'n': n, 'events': ev, 'group': 1, 'units': [1]}, ('loss', n, cut))
+    # ... and with a retry handler on request 0 (it is still pending at the loss and submits a new request from its errback)
+    for variant in ('tcp', 'rtu'):
+        for n in (1, 2, 3, 5):
+            for lose_at in range(0, n):
+                ev = [('reply', k) for k in range(1, n)] if variant == 'tcp' else []
+                ev.insert(min(lose_at, len(ev)), ('lose',))
+                ev.append(('request',))
+                add(run, {'variant': variant, 'n': n, 'events': ev, 'group': 1, 'units': [1], 'retry_on_loss': True}, ('loss-retry', variant, n))
     # wrap histories
     if run.mine(0):
         wrap_histories(run)
